@@ -11,7 +11,7 @@ from .shapes import same, state
 def _feature(name, params):
     import menpo.feature as mf
 
-    simple = {"gradient": mf.gradient, "gaussian_filter": lambda x: mf.gaussian_filter(x, 1.5), "igo": mf.igo, "double_igo": mf.double_igo,
+    simple = {"gradient": mf.gradient, "gaussian_filter": lambda x: mf.gaussian_filter(x, 1.5), "gaussian_filter_0": lambda x: mf.gaussian_filter(x, 0), "igo": mf.igo, "double_igo": mf.double_igo,
               "es": mf.es, "no_op": mf.no_op, "normalize_std": mf.normalize_std, "normalize_norm": mf.normalize_norm,
               "normalize_var": mf.normalize_var,
               "igo_of_gaussian": lambda x: mf.igo(mf.gaussian_filter(x, 1.5)),
@@ -62,6 +62,36 @@ def check_wrap(o):
                     {"maxdiff": float(np.nanmax(np.abs(raw - r.pixels))) if isinstance(raw, np.ndarray) and raw.shape == r.pixels.shape else None}, None))
     if not np.array_equal(px, img.pixels):
         bad.append(("the feature modified the pixel array of its input", {}, None))
+    # the result is a new object: writing into it must not reach the input (and vice versa)
+    if np.shares_memory(r.pixels, img.pixels):
+        bad.append(("the feature image shares its pixel buffer with the input image", {}, None))
+    px2 = px.copy()
+    with warnings.catch_warnings():
+        warnings.simplefilter("ignore")
+        raw2 = f(px2)
+    if isinstance(raw2, np.ndarray) and np.shares_memory(raw2, px2):
+        bad.append(("the feature of a raw array shares memory with that array", {}, None))
+    if o["daisy"]["rings"]:
+        # options given explicitly with the values the defaults stand for give the same feature; the caller's option lists are
+        # not modified, so a second call with the same objects agrees with the first
+        import menpo.feature as mf
+
+        dz = o["daisy"]
+        sig = [dz["radius"] * (i + 1) / float(2 * dz["rings"]) for i in range(dz["rings"])] + [float(dz["radius"])]
+        rr = [dz["radius"] * (i + 1) / float(dz["rings"]) for i in range(dz["rings"])]
+        rr[-1] = int(dz["radius"])          # (the outermost radius doubles as the integer `radius`)
+        s_keep, r_keep = list(sig), list(rr)
+        kw = dict(step=dz["step"], histograms=dz["histograms"], orientations=dz["orientations"], sigmas=sig, ring_radii=rr)
+        with warnings.catch_warnings():
+            warnings.simplefilter("ignore")
+            e1 = mf.daisy(px.copy(), **kw)
+            e2 = mf.daisy(img, **kw)
+        if sig != s_keep or rr != r_keep:
+            bad.append(("daisy modified the option lists it was given", {"sigmas": sig, "ring_radii": rr}, None))
+        if e1.shape != raw.shape or not np.array_equal(e1, raw):
+            bad.append(("daisy with sigmas / ring_radii given explicitly at their default values differs from the default call", {}, None))
+        if e2.pixels.shape != e1.shape or not np.array_equal(e2.pixels, e1):
+            bad.append(("two daisy calls with the same option objects disagree (array then image)", {"shapes": [e1.shape, e2.pixels.shape]}, None))
     names = [n for n, _ in o["lms"]]
     have = list(r.landmarks.group_labels) if r.has_landmarks else []
     if sorted(have) != sorted(names):
